@@ -49,8 +49,32 @@ let parse_op k st tok =
   | "ST" -> Some (OStart false) | "STK" -> Some (OStart true) | "SP" -> Some (OStop false) | "SPK" -> Some (OStop true)
   | _ -> raise Badop
 
+(* U <up> <comp> <left> ; evop ...  : one tracker, the announce as it must appear on a BEP-15 wire *)
+let run_udp up comp left evops =
+  let s = ref (init (z_of_zt base_us) [nat_of_int 0]) in
+  s := step !s (OStats (z_of_string up, z_of_string comp, z_of_string left));
+  s := step !s (OEnable true);
+  let outs = List.map (fun o ->
+    let ops = match o with
+      | "ss" -> [OSendStart] | "sc" -> [OSendCompleted] | "sp" -> [OSendStop] | "mr" -> [OManual]
+      | "ST" -> [ODisable; OEnable true; OSendStart]
+      | "SP" -> [OSendStop; ODisable; OEnable false]
+      | _ -> raise Badop in
+    let before = List.length !s.log in
+    List.iter (fun op -> s := step !s op) ops;
+    let nnew = List.length !s.log - before in
+    if nnew = 0 then "-"
+    else begin
+      let r = List.hd !s.log in
+      (* TrackerUdp: interval from the reply (1800), min interval = default_min_interval *)
+      s := step !s (OSuccess (nat_of_int 0, z_of_int 1800, z_of_int 600));
+      Printf.sprintf "%s:%s:%s:%s" (string_of_z (wire_event r.r_ev)) (string_of_z r.r_comp) (string_of_z r.r_left) (string_of_z r.r_up)
+    end) evops in
+  String.concat " | " outs
+
 let () = each_line (fun line ->
   match split_ws line with
+  | "U" :: up :: comp :: left :: ";" :: evops -> (try run_udp up comp left evops with Badop -> "BADOP")
   | "T" :: t0 :: "G" :: k :: rest ->
       let k = int_of_string k in
       let groups = List.map (fun g -> nat_of_int (int_of_string g)) (take k rest) in
